@@ -3,6 +3,17 @@ each property.  A unit may serve several properties; its obligations are
 generated once per check run."""
 
 UNITS = {
+    'C20': {
+        'functions': ['penman.__main__:_process_in', 'penman.__main__:_process_out', 'penman.__main__:_check'],
+        'lemmas': [],
+        'level': 'other',
+        'explanation': 'Proved (library stages as opaque functions of their arguments): _process_in applies canonicalise, '
+                       'interpret, reify edges, dereify edges, reify attributes, indicate branches in exactly this '
+                       'order, each only when its option is set and every model-dependent stage with the selected '
+                       'model; _process_out reconfigures with the selected model (else configures with it), then '
+                       'rearranges, then relabels.  That the tool writes one block per input graph, option decoding, '
+                       'byte idempotence and the plain-run clause are decided by the bounded stand-in (subprocess runs).',
+    },
     'C16': {
         'functions': ['penman.__main__:_check', 'penman.model:Model.has_role'],
         'lemmas': [],
